@@ -35,7 +35,7 @@ Init == c \in 1..Len(Cases) /\ obj = Start(c) /\ hist = <<>> /\ fragile = FALSE
 \* A truncation whose threshold EQUALS a current probability is decided by rounding in floating point once
 \* the probability is the result of an earlier rescaling (0.375 / 0.625 need not be the double 0.6): from
 \* then on the real object may legitimately be in either state, and observations are not judged.
-Tie(o, h) == \E p \in 1..2 : \E n \in DOMAIN o[p] : \E j \in 1..Len(o[p][n]) : o[p][n][j] = h
+AtThreshold(o, h) == \E p \in 1..2 : \E n \in DOMAIN o[p] : \E j \in 1..Len(o[p][n]) : o[p][n][j] = h
 ThresholdOf(op) == IF op = "t1" THEN Thresholds[1] ELSE IF op = "t2" THEN Thresholds[2] ELSE Thresholds[3]
 
 Observe(i, o) == LET wp == WeightProfile(o)
@@ -47,7 +47,7 @@ Step(op) ==
             ELSE IF op = "t2" THEN Clipped(obj, Thresholds[2])
             ELSE IF op = "t3" THEN Clipped(obj, Thresholds[3])
             ELSE obj
-  /\ fragile' = (fragile \/ (op \in {"t1", "t2", "t3"} /\ Tie(obj, ThresholdOf(op))))
+  /\ fragile' = (fragile \/ (op \in {"t1", "t2", "t3"} /\ AtThreshold(obj, ThresholdOf(op))))
   /\ hist' = Append(hist, [op |-> op, obs |-> IF op = "eval" /\ ~fragile THEN Observe(c, obj) ELSE [poisoned |-> TRUE]])
   /\ UNCHANGED c
 
